@@ -77,6 +77,13 @@ func newSchema(table string, master []sqliteMaster) (*Schema, error) {
 	if err := checkConstraintColumns(ct); err != nil {
 		return nil, err
 	}
+	for _, c := range ct.Columns {
+		if upperASCII(c.Type) == "AS" {
+			// `b AS (5)`: a generated column, which parsed as a column of
+			// type "AS(5)". A virtual one is not stored in the rows.
+			return nil, errors.New("unsupported CREATE TABLE statement: generated column")
+		}
+	}
 
 	st := newCreateTable(ct)
 
